@@ -386,7 +386,7 @@ func genC03(tier string, seed int64) (*Family, error) {
 		fam.Instances = append(fam.Instances, Instance{Func: name, Stratum: stratum, Desc: desc, Expect: []string{"executed"}})
 	}
 	clean := func(s string) string {
-		r := strings.NewReplacer(".", "_", "[", "_", "]", "", "\"", "", "*", "", "-", "neg")
+		r := strings.NewReplacer(".", "_", "[", "_", "]", "", "\"", "", "*", "", "-", "neg", " ", "sp")
 		return r.Replace(s)
 	}
 	for _, t := range targets {
@@ -445,6 +445,7 @@ func genC03(tier string, seed int64) (*Family, error) {
 		{"pmis[nik]", "string", "\"\""}, {"pmis[1]", "string", "\"one\""}, {"pmis[ione]", "string", "\"one\""}, {"mis[nik]", "string", "\"\""}, {"psm[nokey]", "bool", "false"}, {"psm[key]", "bool", "true"},
 		{"d.SL[2]", "int64", "d.SL[2]"}, {"d.SL[ix]", "int64", "d.SL[1]"}, {"sl[0]", "int64", "d.SL[0]"}, {"psl[1]", "int64", "d.SL[1]"}, {"d.SL8[1]", "int8", "d.SL8[1]"},
 		{"d.AR[1]", "int64", "d.AR[1]"}, {"par[0]", "int64", "d.PAR[0]"}, {"d.PAR[2]", "int64", "d.PAR[2]"},
+		{"d.MS[\" k\"]", "int64", "int64(0)"}, {"d.MS[\"k \"]", "int64", "int64(0)"}, {"pms[\" k \"]", "int64", "int64(0)"},
 		{"d.MI[-40]", "int64", "int64(0)"}, {"mis[-1]", "string", "\"\""}, {"pmis[-1]", "string", "\"\""},
 	}
 	for k, r := range reads {
@@ -700,6 +701,17 @@ func (o *paramObj) Put(b bool, i int32, s string, u uint16) int64 { lastPut = pu
 `, name, pt, pt, src.decl, rep, " return fn("+src.rule+")", pt, src.goExpr))
 		}
 	}
+	add("F_rebind_local", "frame", "a local first bound to the value of a host location and then re-assigned leaves the host location alone", `func F_rebind_local() {
+	d, s, p, q := newD()
+	dc := inject(d, p)
+	err, res := exec(dc, " c = d.I64\n c = 7\n n = d.S\n n = \"changed\"\n e = d.SL[1]\n e = 99\n g = d.P.A\n g = 1\n h = d.B\n h = !h\n return c")
+	vnd.Reach("executed")
+	vnd.Assert(err == nil, "the rule succeeds")
+	got, ok := res["r"].(int64)
+	vnd.Assert(ok && got == 7, "the local holds what was assigned last")
+	untouched(d, s, p, q, "")
+}
+`)
 	add("C_local_then_injected", "shadow", "a name injected after a local of that name was assigned denotes the injected object", `func C_local_then_injected() {
 	d, s, p, q := newD()
 	dc := inject(d, p)
